@@ -32,7 +32,7 @@
 (*     got     the number of bytes the stream read back has (-1: error) and *)
 (*     same    whether they are the first `got' bytes of d.                 *)
 (*  [t |-> "file", file]                                                    *)
-(*     file    strict.ToJSON of a rendered file: must be WellFormed (the    *)
+(*     file    strict.ToJSON of a rendered file: must be WellFormedLax (the *)
 (*             serialiser and the strict parser are cross-checked against   *)
 (*             PdfFile).                                                    *)
 EXTENDS XRefHistory, TraceLib
@@ -60,7 +60,7 @@ LenCaseOK(c) ==
 CaseOK(c) ==
   CASE c.t = "hist" -> HistCaseOK(c)
     [] c.t = "len"  -> LenCaseOK(c)
-    [] c.t = "file" -> WellFormed(c.file)
+    [] c.t = "file" -> WellFormedLax(c.file)
     [] OTHER -> FALSE
 
 VARIABLES i, bad, done
